@@ -29,7 +29,9 @@ type C10ServerCase struct {
 }
 
 // c10Probes: what is tried inside the TLS session (names from Alphabet).
-var c10Probes = []string{"MAIL ok", "RCPT a", "DATA accept-d1", "BDAT accept-c2 LAST", "AUTH ok", "EHLO c2", "STARTTLS", "AUTH ok", "AUTH ok", "MAIL ok", "RCPT a", "DATA accept-d1", "NOOP"}
+var c10Probes = []string{"MAIL ok", "RCPT a", "DATA accept-d1", "BDAT accept-c2 LAST", "AUTH ok", "EHLO c2", "STARTTLS", "AUTH ok", "AUTH ok",
+	// first a chunked transaction (a finished DATA transaction would wipe whatever per-transfer state had leaked), then DATA
+	"MAIL ok", "RCPT b", "BDAT accept-c1", "BDAT accept-c2 LAST", "MAIL ok", "RCPT a", "DATA accept-d1", "NOOP"}
 
 func evalC10Server(c C10ServerCase) (*h.Finding, string) {
 	alpha := Alphabet(c.PC)
@@ -398,7 +400,9 @@ func C10(tier string) int {
 		cfgs = append(cfgs, ref.PConfig{LMTP: true, LMTPBackend: true, MaxRcpt: 2, TLSAvail: true, AllowInsecureAuth: true, AuthBackend: true},
 			ref.PConfig{TLSAvail: true, AllowInsecureAuth: false, AuthBackend: true}, ref.PConfig{LMTP: true, TLSAvail: true, AllowInsecureAuth: true, AuthBackend: true})
 	}
-	injects := []string{"", "MAIL FROM:<okinject@x.example>\r\n", "RCPT TO:<okinject@x.example>\r\n", "EHLO evil.example\r\nMAIL FROM:<okinject@x.example>\r\nRCPT TO:<okinject@y.example>\r\n", "RSET\r\nNOOP\r\n", "BDAT 5 LAST\r\ninject"}
+	injects := []string{"", "MAIL FROM:<okinject@x.example>\r\n", "RCPT TO:<okinject@x.example>\r\n", "EHLO evil.example\r\nMAIL FROM:<okinject@x.example>\r\nRCPT TO:<okinject@y.example>\r\n", "RSET\r\nNOOP\r\n", "BDAT 5 LAST\r\ninject",
+		// no line break at all, just under the line limit: not even the line COUNTER may cross into the TLS session
+		strings.Repeat("i", 1985)}
 	run.Rule = fmt.Sprintf("SERVER: phase 1 - the C03 breadth-first search (alphabet without STARTTLS) collects one shortest history for EVERY reachable pre-STARTTLS state (greeted, authenticated, mid-transaction, mid-BDAT, after errors ...) of %d configuration(s); phase 2 - for every such state x injected plaintext %q x {same segment as STARTTLS, own segment before the ClientHello}: STARTTLS, real TLS handshake, then %d probe commands inside TLS (MAIL/RCPT/DATA/BDAT/AUTH before the new EHLO, EHLO, STARTTLS again, AUTH twice, a full transaction), every step compared with the reference model (old session: Logout and no Reset; nothing remembered; NewSession of the new EHLO sees TLS and the new name; AUTH state gone; envelope gone) plus: no injected command is ever executed once TLS is up. CLIENT: entry points {NewClientStartTLS (in-memory), DialStartTLS, SendMail (loopback)} x scripted server behaviours {good, no STARTTLS keyword, EHLO refused -> HELO fallback, 454, 220 then garbage, 220 with an untrusted certificate, 220 with injected plaintext replies behind it then a good handshake, good handshake after which EHLO is refused and only HELO accepted} x {with, without SASL client}: raw octets before the handshake contain only EHLO/HELO/STARTTLS/QUIT, the first line inside TLS is EHLO and ITS capability list is used, every bad case returns an error. states = pre-STARTTLS states; transitions = conversations.", len(cfgs), injects, len(c10Probes))
 	run.Assumptions = []string{"plaintext put on the wire between the 220 reply and the ClientHello makes the handshake fail (no TLS session exists); what the server does with a failed handshake is not judged", "loopback TCP is used for DialStartTLS/SendMail (they insist on dialling), outside synctest bubbles"}
 	t0 := time.Now()
